@@ -215,6 +215,69 @@ func suiteC19(rng *Rng, thorough bool, s *Sink) {
 		r[4] = byte(t)
 		emit("record-type", key, r)
 	}
+	// the same payload buffer (with spare capacity, as a receive buffer has) delivered twice: the caller's bytes are not touched
+	// and the second delivery is handled like the first
+	for i := 0; i < 6; i++ {
+		key := keys[i%len(keys)]
+		pl := rng.Bytes(12 + 4*i)
+		buf := make([]byte, 0, 128)
+		buf = append(buf, 0x10, 0x02, 0x53, 0xA0, 0x01, byte(i), 0x00, key[0])
+		buf = append(buf, encryptFor(key, uint16(i), pl)...)
+		before := append([]byte(nil), buf...)
+		l1, p1 := session.Handle(key, buf)
+		o1, _, _ := canonHandle(l1, p1, key, before)
+		touched := string(buf) != string(before)
+		l2, p2 := session.Handle(key, buf)
+		o2, _, _ := canonHandle(l2, p2, key, before)
+		op := fmt.Sprintf("BH %s %s mut:same-buffer-delivered-twice", hexOrDash(key), hexOrDash(before))
+		if touched || o1 != o2 {
+			s.Violate(op, o2, fmt.Sprintf("the payload buffer handed to the handler was modified (%v) or its second delivery is handled differently: %s then %s", touched, o1, o2))
+		}
+	}
+	// one handler object, one goroutine per device (that is how ble.New runs them): every device's advertisement is decrypted
+	// with that device's key, whatever the other goroutines do
+	{
+		nd := 4
+		var ks, rs [][]byte
+		var wantPlain []string
+		for i := 0; i < nd; i++ {
+			key := rng.Bytes(16)
+			pl := rng.Bytes(12 + i)
+			raw := append([]byte{0x10, 0x02, 0x53, 0xA0, 0x01, byte(i), 0x00, key[0]}, encryptFor(key, uint16(i), pl)...)
+			ks, rs = append(ks, key), append(rs, raw)
+			wantPlain = append(wantPlain, strings.ToLower(HEX(pl)))
+		}
+		rounds := 300
+		if thorough {
+			rounds = 5000
+		}
+		logged, panics := ble.VerifConcurrent(ks, rs, rounds)
+		wrong := 0
+		example := ""
+		for _, ln := range strings.Split(logged, "\n") {
+			i := strings.Index(ln, "->dev")
+			j := strings.Index(ln, "decryptedBytes=")
+			if i < 0 || j < 0 {
+				continue
+			}
+			d := int(ln[i+5] - '0')
+			got := ln[j+len("decryptedBytes="):]
+			if k := strings.IndexAny(got, ", "); k >= 0 {
+				got = got[:k]
+			}
+			if d >= 0 && d < nd && got != wantPlain[d] {
+				wrong++
+				if example == "" {
+					example = fmt.Sprintf("device %d: plaintext %s logged, the decryption under its key is %s", d, got, wantPlain[d])
+				}
+			}
+		}
+		s.Extra["concurrent_advertisements"] += nd * rounds
+		if wrong > 0 || panics > 0 {
+			s.Violate(fmt.Sprintf("BH %s %s mut:four-devices-handled-concurrently", hexOrDash(ks[0]), hexOrDash(rs[0])), example,
+				fmt.Sprintf("with one goroutine per device on one handler object, %d advertisements were decrypted wrongly and %d calls panicked; %s", wrong, panics, example))
+		}
+	}
 	// longer payloads (several cipher blocks)
 	for l := 24; l <= 80; l += 3 {
 		r := append([]byte{0x10, 0x02, 0x53, 0xA0, byte(l % 3), 0x01, 0x00, 0}, rng.Bytes(l-8)...)
